@@ -100,14 +100,14 @@ let () = iter_lines (fun line ->
        | c :: _ when targa <> "1" && int_of_z c <> 71 && int_of_z c <> 0 -> print_endline "rd err UNKNOWN"
        | c :: _ when targa <> "1" && int_of_z c = 71 ->
          (match gif_header mp bytes with
-          | ROk (hd, _) when int_of_z hd.g_w * int_of_z hd.g_h > 1048576 -> print_endline "skip huge"
+          | ROk (hd, _) when int_of_z hd.g_w * int_of_z hd.g_h > 65536 -> print_endline "skip huge"
           | _ ->
             (match load_gif mp bytes with
              | RErr e -> print_endline ("rd err " ^ rname e)
              | ROk ((((w, h), comps), warn), rows) -> pr w h comps (int_of_z warn) rows))
        | _ ->
          (match tga_header mp bytes with
-          | ROk (hd, _) when int_of_z hd.t_w * int_of_z hd.t_h > 1048576 -> print_endline "skip huge"
+          | ROk (hd, _) when int_of_z hd.t_w * int_of_z hd.t_h > 65536 -> print_endline "skip huge"
           | _ ->
             (match load_tga mp bytes with
              | RErr e -> print_endline ("rd err " ^ rname e)
